@@ -96,7 +96,10 @@ def execute(case, ctx):
                 F = None
                 continue
             if sync_streams(P.mab, F.mab) is False:
-                ctx.fired("probe.sync_fell_back_to_parameter_view")
+                from ..world import alias_partition
+                ctx.violate("generator-aliasing-survives-fit", step, {"refit": alias_partition(P.mab),
+                                                                      "fresh": alias_partition(F.mab)})
+                return
             d = same_params(P, F, ctx, rtol)
             if d:
                 ctx.violate("state-survives-fit", step, {"diff": d})
